@@ -82,19 +82,32 @@ func c03order(c *core.Ctx) {
 		bad := ""
 		sliceRange := false
 		ast.Inspect(d.Decl.Body, func(n ast.Node) bool {
-			rs, ok := n.(*ast.RangeStmt)
-			if !ok {
-				return true
-			}
-			t := core.TypeOf(d.Pkg, rs.X)
-			if t == nil {
-				return true
-			}
-			switch t.Underlying().(type) {
-			case *types.Map:
-				bad = "ranges over a map (" + core.ExprStr(rs.X) + ")"
-			case *types.Slice:
-				sliceRange = true
+			switch l := n.(type) {
+			case *ast.RangeStmt:
+				t := core.TypeOf(d.Pkg, l.X)
+				if t == nil {
+					return true
+				}
+				switch t.Underlying().(type) {
+				case *types.Map:
+					bad = "ranges over a map (" + core.ExprStr(l.X) + ")"
+				case *types.Slice:
+					sliceRange = true
+				}
+			case *ast.ForStmt:
+				// an index loop over a slice: i < len(slice)
+				if l.Cond != nil {
+					ast.Inspect(l.Cond, func(m ast.Node) bool {
+						if call, ok := m.(*ast.CallExpr); ok && core.ExprStr(call.Fun) == "len" && len(call.Args) == 1 {
+							if t := core.TypeOf(d.Pkg, call.Args[0]); t != nil {
+								if _, isSlice := t.Underlying().(*types.Slice); isSlice {
+									sliceRange = true
+								}
+							}
+						}
+						return true
+					})
+				}
 			}
 			return true
 		})
